@@ -65,7 +65,9 @@ Qed.
 Lemma fneg_ok x x' : x == x' -> fneg x == - x'.
 Proof.
   intros H. apply eqp_trans with (- x); [| apply eqp_opp; assumption].
-  unfold fneg. replace (p - x) with (- x + p) by ring. apply eqp_plus_p.
+  unfold fneg. cbv zeta. destruct (p <=? p - x).
+  - apply eqp_of_eq; ring.
+  - replace (p - x) with (- x + p) by ring. apply eqp_plus_p.
 Qed.
 Lemma fdbl_ok x x' : x == x' -> fdbl x == 2 * x'.
 Proof. intros H. unfold fdbl. replace (2 * x') with (x' + x') by ring. apply fadd_ok; assumption. Qed.
@@ -157,11 +159,20 @@ Qed.
 
 (* proof search for "Impl expression is related to the same expression over Z" *)
 Ltac frel :=
-  repeat first
-    [ apply fadd_ok | apply fsub_ok | apply fneg_ok | apply fdbl_ok | apply ftri_ok
-    | apply fmul_ok | apply fsqr_ok | eassumption | apply eqp_refl ].
+  repeat match goal with
+  | |- fadd _ _ == _ => apply fadd_ok
+  | |- fsub _ _ == _ => apply fsub_ok
+  | |- fneg _ == _ => apply fneg_ok
+  | |- fdbl _ == _ => apply fdbl_ok
+  | |- ftri _ == _ => apply ftri_ok
+  | |- fmul _ _ == _ => apply fmul_ok
+  | |- fsqr _ == _ => apply fsqr_ok
+  | |- _ => eassumption
+  | |- _ == _ => apply eqp_refl
+  end.
 (* close [Impl == Spec] : relate to the Z-polynomial the Impl formula denotes, then ring *)
 Ltac fp_close :=
+  unfold I2add, I2sub, I2neg, I2dbl, I2tri, I2conj, I2a_mul_u, I2mul_fp;
   unfold S2mul, S2add, S2sub, S2neg, S2conj, S2scale, S2u, S2one, S2zero; cbn [fst snd];
   eapply eqp_trans; [ frel | apply eqp_of_eq; ring ].
 
